@@ -330,7 +330,7 @@ def all_active_finished(states):
 
 @harness('G3', targets=[f'{PROG}.State.done', f'{PROG}.State.delays', f'{PROG}.State.delay', f'{PROG}.State.with_outcomes',
                         f'{PROG}.State.with_handlers', f'{PROG}.State.with_purpose'],
-         props=['C02', 'C06', 'C03', 'C14'],
+         props=['C02', 'C06', 'C03', 'C14', 'C11'],
          prop_clauses={'C14': ['with_purpose_repurposes']},     # a superseded resume cycle must not lose its finished handlers' records
          clauses=['done_iff_all_active_finished', 'delays_empty_iff_all_active_finished', 'delays_cover_remaining', 'delay_is_min',
                   'with_outcomes_unknown_raises', 'with_outcomes_applies_exactly', 'with_handlers_activates_selected',
